@@ -1,10 +1,14 @@
 """Random drivers whose executions are recorded (harness/record_frame.py) and validated by spec/FrameTrace.tla:
 free-form lives of several frames at once (noise of every kind at several intensity scales, table noise, zero_data,
 signal injection in every form incl. raising callbacks and unit-carrying arguments, SNR queries with and without noise,
-slices / de-drifted / integrated frames operated on further, copies and pickles adopted mid-life)."""
+slices / de-drifted / integrated frames operated on further, copies of every route (Frame.copy, deepcopy, pickle round
+trip, save_pickle / load_pickle) operated on alongside their originals, frames saved as .fil / .h5 -- after any prior
+history incl. get_waterfall, repeated saves to the same path in either format -- and constructed again from the file)."""
 import copy
+import os
 import pickle
 import random
+import tempfile
 
 import numpy as np
 from astropy import units as u
@@ -24,7 +28,7 @@ SCALES = (1.0, 4.0e6, 1.0e-3, 1.0e-10)
 def drive(seed, nops=16):
     rnd = random.Random(seed)
     rec = rf.Recorder()
-    with rf.recording(rec):
+    with tempfile.TemporaryDirectory(prefix="verif_ft_") as tmp, rf.recording(rec):
         frames = []
 
         def new():
@@ -49,7 +53,7 @@ def drive(seed, nops=16):
             k = rnd.randrange(len(frames))
             fr, sc = frames[k]
             op = rnd.choice(["chi2", "gauss", "trunc", "obs", "obs_user", "zero", "signal", "signal", "const", "snr", "snr", "slice",
-                             "dedrift", "integrate", "copy", "pickle", "bad_noise", "bad_signal"])
+                             "dedrift", "integrate", "copy", "pickle", "bad_noise", "bad_signal", "save_load", "save_load", "pickle_file", "get_waterfall", "rewrap"])
             try:
                 if op == "chi2":
                     fr.add_noise(x_mean=rnd.choice([1, 10, 25.5]) * sc, noise_type="chi2")
@@ -106,9 +110,31 @@ def drive(seed, nops=16):
                     else:
                         stg.integrate(fr, axis=rnd.choice(["t", "f", 0, 1]), mode=rnd.choice(["mean", "sum"]), as_frame=True)
                 elif op == "copy":
-                    frames.append((copy.deepcopy(fr) if rnd.random() < 0.5 else fr.copy(), sc))
+                    frames.append((rf.copy_event(rec, fr, lambda: copy.deepcopy(fr), "deepcopy") if rnd.random() < 0.5 else fr.copy(), sc))
                 elif op == "pickle":
-                    frames.append((pickle.loads(pickle.dumps(fr)), sc))
+                    frames.append((rf.copy_event(rec, fr, lambda: pickle.loads(pickle.dumps(fr)), "pickle"), sc))
+                elif op == "rewrap":
+                    # a second frame built from the first one's pixel array: the constructor copies, so the two stay independent
+                    frames.append((stg.Frame.from_data(fr.df, fr.dt, fr.fch1, fr.ascending, fr.data, seed=rnd.randrange(1 << 30)), sc))
+                elif op == "get_waterfall":
+                    fr.get_waterfall() if rnd.random() < 0.7 else fr.check_waterfall()
+                elif op == "save_load":
+                    # blimpy's readers need at least 3 integrations and 3 channels
+                    if fr.tchans >= 3 and fr.fchans >= 3:
+                        ext = rnd.choice(["fil", "h5"])
+                        path = os.path.join(tmp, "f%d.%s" % (rnd.randrange(3), ext))
+                        if ext == "fil":
+                            fr.save_fil(path)
+                        elif rnd.random() < 0.5:
+                            fr.save_h5(path)
+                        else:
+                            fr.save_hdf5(path)
+                        if rnd.random() < 0.8:
+                            frames.append((stg.Frame(waterfall=path) if rnd.random() < 0.6 else stg.Frame(path), sc))
+                elif op == "pickle_file":
+                    path = os.path.join(tmp, "p%d.pickle" % rnd.randrange(2))
+                    fr.save_pickle(path)
+                    frames.append((stg.Frame.load_pickle(path), sc))
                 elif op == "bad_noise":
                     fr.add_noise(x_mean=10 * sc, noise_type=rnd.choice(["gaussian", "uniform"]))       # gaussian without deviation / unknown type
                 elif op == "bad_signal":
@@ -120,4 +146,4 @@ def drive(seed, nops=16):
                 pass
             if len(frames) > 5:
                 frames.pop(rnd.randrange(len(frames)))
-    return rec.trace()
+    return rec.trace(strict=True)
